@@ -70,7 +70,7 @@ def exc_of(v):
 
 def classify(prop, v):
     case = v.get('case') or {}
-    if prop == 'C10' and v.get('kind') == 'variable-with-less-than-two-used-values':
+    if prop in ('C10', 'C12') and v.get('kind') == 'variable-with-less-than-two-used-values':
         return 'F27'
     spec = case.get('spec') if isinstance(case, dict) else None
     if prop == 'C16' and v.get('kind') == 'existing-linked-node-without-value':
